@@ -183,6 +183,54 @@ class Check:
         except Exception:
             return ""
 
+    # ---------------------------------------------------------------- trace validation
+    def validate_traces(self, family, module, cfg, paths, parallel=8, timeout=900, tag="trace validation"):
+        """Validate recorded traces (ndjson) against specs/<family>/<module>.tla, one TLC process per trace
+        (the trace is dropped into the scratch copy as trace.ndjson).  Returns one dict per trace:
+        path, accepted, violated (invariant name or None), diag (text of the specification's MISMATCH line)."""
+        from concurrent.futures import ThreadPoolExecutor
+        src = os.path.join(SPECS, family)
+
+        def one(k_path):
+            k, path = k_path
+            work = os.path.join(self.scratch, "tv-%s-%d-%d" % (family, len(self.tlc_runs), k))
+            shutil.copytree(src, work)
+            shutil.copy(path, os.path.join(work, "trace.ndjson"))
+            out = os.path.join(work, "tlc.out")
+            cmd = ["java", "-XX:+UseParallelGC", "-Xss64m", "-Xmx3g", "-cp", JAVA_CP, "tlc2.TLC", "-config", cfg,
+                   "-metadir", os.path.join(work, "meta"), "-workers", "1", module + ".tla"]
+            t0 = time.time()
+            to = False
+            with open(out, "w") as fo:
+                try:
+                    rc = subprocess.run(cmd, cwd=work, stdout=fo, stderr=subprocess.STDOUT, timeout=timeout).returncode
+                except subprocess.TimeoutExpired:
+                    rc, to = -1, True
+            res = TLCResult()
+            parse_tlc_output(out, res)
+            text = open(out, errors="replace").read()
+            diag = ""
+            i = text.find('<< "MISMATCH"')
+            if i >= 0:
+                diag = " ".join(text[i:i + 20000].split())[:6000]
+            rejected = ("REJECTED" in text) or ("Postcondition" in text and "is false" in text)
+            violated = res.violated
+            err = res.error if (res.error and not rejected and not violated) else None
+            shutil.rmtree(work, ignore_errors=True)
+            return dict(path=path, accepted=(rc == 0 and not rejected and not violated and not err), rejected=rejected,
+                        violated=violated, error=err, timed_out=to, diag=diag, states=res.distinct,
+                        wall_s=round(time.time() - t0, 1))
+
+        with ThreadPoolExecutor(max_workers=parallel) as ex:
+            results = list(ex.map(one, list(enumerate(paths))))
+        self.tlc_runs.append(dict(tag=tag, family=family, module=module, mode="trace-validation", traces=len(paths),
+                                  accepted=sum(1 for r in results if r["accepted"]),
+                                  states=sum(r["states"] for r in results),
+                                  wall_s=round(sum(r["wall_s"] for r in results), 1)))
+        self.states += sum(r["states"] for r in results)
+        self.transitions += sum(r["states"] for r in results)
+        return results
+
     # ---------------------------------------------------------------- Go harness
     def prepare_harness(self):
         """Returns the directory of the harness module to build in.  For /repo that is /verif/harness itself;
